@@ -491,6 +491,18 @@ class C18(common.Prop):
             traces[t].append([at[0], toks[at[0]].get(at[1], "?") if toks else str(at[1])])
         th = [dict(self.observe(rp.res[t], rp.obs[t]), trace=traces[t]) for t in range(n)]
         case["_threads"], case["_solos"] = th, solos
+        # the caller of thread 0 now edits ITS result in place (header numbers, names, lists, body): what the other threads were
+        # handed must not move (results of concurrent reads are as separate as results of reads made alone)
+        case["_moved"] = None
+        if complete and rp.res[0] is not None and rp.res[0][0] == "ok":
+            try:
+                pg._scribble(rp.res[0][1])
+            except Exception:
+                pass
+            for t in range(1, n):
+                if rp.res[t] is not None and rp.res[t][0] == "ok" and ["ok", pg.dump_pose(rp.res[t][1])] != th[t]["res"]:
+                    case["_moved"] = t
+                    break
         case["_after"] = self.aftermath(case) if complete else None
         return {"complete": complete, "threads": th}
 
@@ -586,6 +598,10 @@ class C18(common.Prop):
             if a["res"] != s["res"] and self.stream_reader_stable(case, j):
                 return {"what": "thread %d (file %s): the pose differs from the pose the same read returns alone (%s vs %s)" % (
                     t, j["f"], a["res"][0], s["res"][0]), "thread": t, "kind": "pose"}
+        if case.get("_moved") is not None:
+            t = case["_moved"]
+            return {"what": "thread %d's result (file %s) changed when the caller of thread 0 edited its own result in place after the "
+                            "concurrent reads: the two results share state" % (t, case["jobs"][t]["f"]), "thread": t, "kind": "shared-result"}
         for t, (a, s) in enumerate(zip(case.get("_after") or [], solos)):
             j = case["jobs"][t]
             if a["res"] != s["res"] and self.stream_reader_stable(case, j):
@@ -598,7 +614,7 @@ class C18(common.Prop):
         if failure.get("kind") == "line":
             w = failure.get("preempted_at") or ["?", "?", 0]
             return "read-path-race-at-%s:%s" % (w[0], w[1])
-        if failure.get("kind") in ("foreign-header", "foreign-offset", "wrong-header", "pose", "aftermath"):
+        if failure.get("kind") in ("foreign-header", "foreign-offset", "wrong-header", "pose", "aftermath", "shared-result"):
             return "header-memo-race-" + failure["kind"]
         return "c18-" + str(failure.get("what", "?"))[:30].replace(" ", "-")
 
